@@ -142,6 +142,17 @@ def work(arg):
                             deleted = True
                     if deleted:
                         model[h] = ("absent", model[h][1])
+            else:
+                # state invariant at the end of every history: every recorded value reads as the model says
+                case = {"config": cfg, "history": [list(o) for o in hist] + [["get-all"]]}
+                for name, h in hashes.items():
+                    st, want = model[h]
+                    got, ok = b.get_value(h)
+                    nops += 1
+                    if st == "present" and (not ok or got != want):
+                        viol.append((f"get-loses-value:{name}", case, f"{cfg} {hist} then get: recorded value reads as {'absent' if not ok else 'another value'}"))
+                    elif st == "absent" and ok:
+                        viol.append((f"get-resurrects-value:{name}", case, f"{cfg} {hist} then get: bytes were deleted but get_value returned a value"))
         except Exception as e:  # noqa: BLE001
             viol.append((f"operation-raises:{type(e).__name__}", {"config": cfg, "history": [list(o) for o in hist]}, f"{cfg} {hist}: {e!r}"))
         finally:
